@@ -26,11 +26,11 @@ WITNESS = {"UnclaimedActivate": ("sss", "abc"), "DeleteBeforeRemove": ("ssp", "a
 KIND = {"s": "send", "i": "ident", "p": "pass"}
 
 
-def table(kinds, orgs):
-    """'ssp', 'aba' -> thread table"""
+def table(kinds, orgs, pfails=0):
+    """'ssp', 'aba' -> thread table; pfails = injected PutGrain (publication) failures"""
     ts = ["t%d" % (i + 1) for i in range(len(kinds))]
     return {"threads": ts, "kinds": {t: KIND[k] for t, k in zip(ts, kinds)}, "orgs": {t: o.upper() for t, o in zip(ts, orgs)},
-            "name": kinds + "_" + orgs}
+            "name": kinds + "_" + orgs + ("_pf" if pfails else ""), "pfails": pfails}
 
 
 def gcfg(tb, defects, invariants=(), view=True, fails=1, pdf=False, spec="Spec", extra=""):
@@ -39,7 +39,7 @@ def gcfg(tb, defects, invariants=(), view=True, fails=1, pdf=False, spec="Spec",
     lines = ["SPECIFICATION " + spec, "CONSTANTS", '  Nodes = {"A", "B", "C"}',
              "  Threads = {%s}" % ", ".join('"%s"' % t for t in tb["threads"])]
     lines += ['  K%d = "%s"' % (i + 1, k[i]) for i in range(4)] + ['  O%d = "%s"' % (i + 1, o[i]) for i in range(4)]
-    lines += ["  Kind <- KindT", "  Org <- OrgT", "  MaxHops = 2", "  MaxFails = %d" % fails,
+    lines += ["  Kind <- KindT", "  Org <- OrgT", "  MaxHops = 2", "  MaxFails = %d" % fails, "  MaxPutFails = %d" % tb.get("pfails", 0),
               "  PassDuringFlight = %s" % ("TRUE" if pdf else "FALSE"),
               "  Defects = {%s}" % ", ".join('"%s"' % d for d in defects)]
     if view:
@@ -157,10 +157,11 @@ def run_c30(ctx, pid):
                   timeout=kw.pop("timeout", 1500), **kw)
 
     # ---- design level
-    design_q = [table("sss", "abc"), table("ssp", "aba"), table("sip", "aba")]
+    design_q = [table("sss", "abc", 1), table("ssp", "aba"), table("sip", "aba", 1)]
     design_t = [table("ssi", "abc"), table("iis", "aab"), table("sss", "aab"), table("ssp", "abc"), table("sip", "abc"), table("ssi", "aba"),
                 table("iis", "abc"), table("iip", "aba"), table("sis", "bac"),
-                table("sssp", "abca"), table("ssip", "abaa"), table("sisp", "abba"), table("ssss", "abca"), table("siip", "abab"), table("sips", "aaab")]
+                table("sssp", "abca"), table("ssip", "abaa"), table("sisp", "abba"), table("ssss", "abca"), table("siip", "abab"), table("sips", "aaab"),
+                table("ssp", "aba", 1), table("ssi", "aba", 1), table("sis", "bac", 1), table("iis", "aab", 1)]
     fut_design = [pool.submit(tlc, tb, [], "repaired", must_hold=True, workers=2) for tb in design_q]
     if not quick:
         fut_design += [pool.submit(tlc, tb, [], "repaired", must_hold=True, workers=4, fails=2, timeout=3000) for tb in design_t]
@@ -168,9 +169,9 @@ def run_c30(ctx, pid):
     fut_wit = {d: pool.submit(tlc, table(*WITNESS[d]), [d], "only-" + d, expect_fail=True, workers=2) for d in ALL_DEFECTS}
 
     # ---- spec -> code: behaviours of the code model
-    code_tables = [table("sss", "abc"), table("ssp", "aba"), table("sip", "aba"), table("ssi", "aba")]
+    code_tables = [table("sss", "abc", 1), table("ssp", "aba"), table("sip", "aba"), table("ssi", "aba", 1)]
     if not quick:
-        code_tables += [table("sss", "aab"), table("ssp", "abc"), table("iis", "aab"), table("sis", "bac"), table("sssp", "abca"), table("sips", "aaab")]
+        code_tables += [table("sss", "aab"), table("ssp", "abc", 1), table("iis", "aab"), table("sis", "bac", 1), table("sssp", "abca"), table("sips", "aaab")]
     nsel = 150 if quick else 800
     nsim = 150 if quick else 800
 
@@ -257,7 +258,7 @@ def run_c30(ctx, pid):
         path = ctx.tmp("conf-%s.ndjson" % tb["name"])
         vlib.write_ndjson(path, sub)
         cfgname = "g_%s_trace.cfg" % tb["name"]
-        pc = write(ctx, cfgname, gcfg(tb, CODE_DEFECTS, invariants=(), view=False, fails=9, spec="TSpec"))
+        pc = write(ctx, cfgname, gcfg(dict(tb, pfails=9), CODE_DEFECTS, invariants=(), view=False, fails=9, spec="TSpec"))
         r = ctx.tlc(GSPEC, cfgname, module="Trace_Registry", dfs=True, files={cfgname: pc, "trace.ndjson": path}, timeout=2400, heap="6g",
                     expect_fail=True, name=cfgname[:-4])
         if r.error:
@@ -333,7 +334,7 @@ def run_c30(ctx, pid):
                "conformance_drift": drift_conf or None, "events_judged": tot["events"], "not_quiescent": tot["notq"],
                "known_finding_hits": dict(known_hits), "code_defects_modelled": CODE_DEFECTS, "exhaustive": False}
         ctx.evidence("model_checking", cov,
-                     ["one grain identity; 3 nodes; <= 4 concurrent calls; <= 2 injected OnActivate failures (panic in OnActivate)",
+                     ["one grain identity; 3 nodes; <= 4 concurrent calls; <= 2 injected OnActivate failures (panic in OnActivate), <= 1 injected PutGrain failure",
                       "the registry is linearizable (one atomic step per operation): a fake olric DMap/Client under goakt's real cluster engine",
                       "remote hops (RemoteAskGrain, RemoteActivateGrain) are delivered in-process on the caller's goroutine to the target's real handler",
                       "environment assumption PassDuringFlight = FALSE: passivation does not fire while an activation of the grain is in flight on its node",
